@@ -148,6 +148,15 @@ impl Value {
     }
 }
 
+/// Deadline for a time-to-live that starts now. A TTL too large to be represented as an
+/// `Instant` (e.g. EXPIRE with i64::MAX seconds) is clamped to about 100 years instead of
+/// overflowing (`Instant + Duration` panics on overflow).
+pub fn deadline_after(ttl: Duration) -> Instant {
+    let now = Instant::now();
+    now.checked_add(ttl)
+        .unwrap_or_else(|| now + Duration::from_secs(100 * 365 * 24 * 3600))
+}
+
 impl ValueMetadata {
     /// Create new metadata for a value
     pub fn new() -> Self {
@@ -164,7 +173,7 @@ impl ValueMetadata {
     pub fn with_expiration(expires_in: Duration) -> Self {
         let now = Instant::now();
         ValueMetadata {
-            expires_at: Some(now + expires_in),
+            expires_at: Some(deadline_after(expires_in)),
             created_at: now,
             last_accessed: now,
             encoding: StringEncoding::Raw,
@@ -185,7 +194,7 @@ impl ValueMetadata {
     
     /// Set expiration time
     pub fn set_expiration(&mut self, expires_in: Duration) {
-        self.expires_at = Some(Instant::now() + expires_in);
+        self.expires_at = Some(deadline_after(expires_in));
     }
     
     /// Clear expiration
